@@ -43,6 +43,7 @@ vars == <<inst, round, params, sstate, pending, cur, cparams, cstate, pos, acc, 
              copt    : [kind |-> "sgd" | "mom", lr |-> rational, beta |-> rational]
              sopt    : same
              mu      : rational (FedProx weight, <<0,1>> for FedAvg)
+             reg     : rational lambda: an L2 regulariser lambda/2 |w|^2 added to the loss (gradient lambda w); zero if none
              noise   : round -> client -> sequence of integers, one per local step: the loss may use its random
                        key; the per-example loss is then 1/2 (w_l - x_l)^2 + w_l * eta(key) with an integer eta,
                        and noise[r][c][i] is eta of the key client c uses at its i-th step of round r (the
@@ -79,8 +80,9 @@ SumX(c, batch, l) == IF batch = <<>> THEN 0 ELSE inst.data[c][Head(batch)][l] + 
 NoiseAt(c, i) == R(inst.noise[round][c][IF AdvanceKey THEN i ELSE 1])
 Grad(c, i, w, anchor) ==
   LET batch == inst.stream[c][i]
-  IN [l \in Leaves |-> RAdd(RAdd(RSub(w[l], Norm(SumX(c, batch, l), Len(batch))), NoiseAt(c, i)),
-                            RMul(inst.mu, RSub(w[l], anchor[l])))]
+  IN [l \in Leaves |-> RAdd(RAdd(RAdd(RSub(w[l], Norm(SumX(c, batch, l), Len(batch))), NoiseAt(c, i)),
+                                 RMul(inst.mu, RSub(w[l], anchor[l]))),
+                            RMul(inst.reg, w[l]))]
 
 \* client_init: the round's server params, a fresh client optimizer state
 StartClient(i) == /\ cur = 0 /\ i \in pending
@@ -130,8 +132,9 @@ RECURSIVE TrainFrom(_, _, _, _, _, _)
 TrainFrom(r, c, i, w, s, anchor) ==
   IF i > Len(inst.stream[c]) THEN w
   ELSE LET batch == inst.stream[c][i]
-           g == [l \in Leaves |-> RAdd(RAdd(RSub(w[l], Norm(SumX(c, batch, l), Len(batch))), R(inst.noise[r][c][i])),
-                                       RMul(inst.mu, RSub(w[l], anchor[l])))]
+           g == [l \in Leaves |-> RAdd(RAdd(RAdd(RSub(w[l], Norm(SumX(c, batch, l), Len(batch))), R(inst.noise[r][c][i])),
+                                            RMul(inst.mu, RSub(w[l], anchor[l]))),
+                                       RMul(inst.reg, w[l]))]
            o == OptApply(inst.copt, g, s, w)
        IN TrainFrom(r, c, i + 1, o.p, o.s, anchor)
 Delta(r, c, w) == VSub(w, TrainFrom(r, c, 1, w, VZero, w))
